@@ -128,13 +128,14 @@ func (x *XRefParser) FindXRef() (int64, error) {
 
 	// Parse the offset after startxref
 	afterStartXRef := content[idx+len("startxref"):]
-	lines := strings.Split(afterStartXRef, "\n")
-	if len(lines) < 2 {
+	fields := strings.Fields(afterStartXRef)
+	if len(fields) < 1 {
 		return 0, fmt.Errorf("invalid startxref format")
 	}
 
-	// The offset should be on the next line
-	offsetStr := strings.TrimSpace(lines[1])
+	// The offset is the first token after the keyword (on the next line, whatever
+	// marker ends the lines)
+	offsetStr := fields[0]
 	offset, err := strconv.ParseInt(offsetStr, 10, 64)
 	if err != nil {
 		return 0, fmt.Errorf("invalid xref offset: %w", err)
@@ -178,6 +179,7 @@ func (x *XRefParser) ParseXRef(offset int64) (*XRefTable, error) {
 // streams start with an object definition like "5 0 obj".
 func (x *XRefParser) isXRefStream() (bool, error) {
 	scanner := bufio.NewScanner(x.reader)
+	scanner.Split(scanPDFLines)
 	if !scanner.Scan() {
 		return false, fmt.Errorf("failed to read first line")
 	}
@@ -203,10 +205,43 @@ func (x *XRefParser) isXRefStream() (bool, error) {
 	return false, fmt.Errorf("unrecognized xref format: %s", line)
 }
 
+// maxTrailerText bounds the text collected for one trailer dictionary.
+const maxTrailerText = 1 << 20
+
+// scanPDFLines is a bufio.SplitFunc for the three end-of-line markers of PDF:
+// LF, CR LF and a lone CR (ISO 32000-1 7.2.3).
+func scanPDFLines(data []byte, atEOF bool) (advance int, token []byte, err error) {
+	if atEOF && len(data) == 0 {
+		return 0, nil, nil
+	}
+	for i, b := range data {
+		switch b {
+		case '\n':
+			return i + 1, data[:i], nil
+		case '\r':
+			if i+1 < len(data) {
+				if data[i+1] == '\n' {
+					return i + 2, data[:i], nil
+				}
+				return i + 1, data[:i], nil
+			}
+			if atEOF {
+				return i + 1, data[:i], nil
+			}
+			return 0, nil, nil // need one more byte to tell CR from CR LF
+		}
+	}
+	if atEOF {
+		return len(data), data, nil
+	}
+	return 0, nil, nil
+}
+
 // parseTraditionalXRef parses a traditional xref table (PDF 1.0-1.4).
 // The format is: "xref\n<subsections>\ntrailer\n<dict>\nstartxref\n<offset>\n%%EOF"
 func (x *XRefParser) parseTraditionalXRef() (*XRefTable, error) {
 	scanner := bufio.NewScanner(x.reader)
+	scanner.Split(scanPDFLines)
 
 	// Read "xref" keyword
 	if !scanner.Scan() {
@@ -227,10 +262,10 @@ func (x *XRefParser) parseTraditionalXRef() (*XRefTable, error) {
 			continue
 		}
 
-		// Check if we've reached the trailer
-		if line == "trailer" {
+		// Check if we've reached the trailer (the dictionary may start on the same line)
+		if line == "trailer" || strings.HasPrefix(line, "trailer<<") || strings.HasPrefix(line, "trailer ") {
 			// Parse trailer dictionary
-			trailer, err := x.parseTrailer(scanner)
+			trailer, err := x.parseTrailerFrom(scanner, strings.TrimPrefix(line, "trailer"))
 			if err != nil {
 				return nil, fmt.Errorf("failed to parse trailer: %w", err)
 			}
@@ -535,19 +570,28 @@ func (x *XRefParser) parseEntry(line string) (*XRefEntry, error) {
 
 // parseTrailer parses the trailer dictionary after the "trailer" keyword.
 func (x *XRefParser) parseTrailer(scanner *bufio.Scanner) (Dict, error) {
-	// Collect all remaining lines until we find a dictionary
+	return x.parseTrailerFrom(scanner, "")
+}
+
+// parseTrailerFrom parses the trailer dictionary whose text starts with first
+// (what followed the trailer keyword on its own line) and continues on the
+// scanner's next lines.
+func (x *XRefParser) parseTrailerFrom(scanner *bufio.Scanner, first string) (Dict, error) {
+	// Collect the text of the dictionary: what followed the keyword on its line, then
+	// the lines up to the startxref keyword that ends the section (the dictionary
+	// may hold nested dictionaries and may be spread over any number of lines).
+	// The object parser reads one dictionary from it and ignores what follows.
 	var dictText strings.Builder
+	dictText.WriteString(first)
+	dictText.WriteString("\n")
 
-	for scanner.Scan() {
+	for dictText.Len() < maxTrailerText && scanner.Scan() {
 		line := scanner.Text()
-		dictText.WriteString(line)
-		dictText.WriteString("\n")
-
-		// Check if we've seen the complete dictionary
-		// (Simple heuristic: look for ">>" which ends the dict)
-		if strings.Contains(line, ">>") {
+		if strings.HasPrefix(strings.TrimSpace(line), "startxref") {
 			break
 		}
+		dictText.WriteString(line)
+		dictText.WriteString("\n")
 	}
 
 	// Parse the dictionary using our existing parser
